@@ -120,12 +120,12 @@ def _se_value_in_class(K, lo, hi):
         a, b = (lo + 2) // 2, (hi + 1) // 2
         if a > b:
             return None, None
-        v = K.int('v', a, b)
+        v = K.int('v', a, b, edges=2)
         return v, 2 * v - 1
     a, b = -(hi // 2), -((lo + 1) // 2)
     if a > b:
         return None, None
-    v = K.int('v', a, b)
+    v = K.int('v', a, b, edges=2)
     return v, -2 * v
 
 
@@ -146,7 +146,7 @@ def h_enc_class(code, k, cname='Bits'):
         cls = classes()[cname]
         lo, hi = (1 << k) - 1, (1 << (k + 1)) - 2       # codeNum range of the class
         if code == 'ue':
-            v = K.int('v', lo, hi)
+            v = K.int('v', lo, hi, edges=2)
             u = v
         else:
             v, u = _se_value_in_class(K, lo, hi)
@@ -221,22 +221,30 @@ def h_negative(code):
     return h
 
 
-def h_decode_total(code, n, pos, cname='ConstBitStream'):
+def h_decode_total(code, n, pos, cname='ConstBitStream', via='read'):
     def h(K):
         import bitstring
         cls = classes()[cname]
         x = K.bits('x', n)
         s = mk(K, cls, x, pos)
         exp = REF_DEC[code](K, x, pos)
-        r = call(lambda: s.read(code))
+        if via == 'read':
+            r = call(lambda: s.read(code))
+        elif via == 'readlist':
+            r = call(lambda: s.readlist([code])[0])
+        elif via == 'peeklist':
+            r = call(lambda: s.peeklist(code)[0])
+        else:  # unpack on the tail, then a fixed token: the position bookkeeping of _read_dtype_list
+            r = call(lambda: s.readlist(code + ', bits:0')[0])
         if exp is None:
             ok = (not r.ok) and isinstance(r.exc, bitstring.ReadError) and s._pos == pos and same(raw(s), x)
-            return K.check(ok, 'truncated or absent codeword must raise ReadError and leave pos unchanged', exc=r.excname, got=r.value, pos=s._pos)
+            return K.check(ok, 'truncated or absent codeword must raise ReadError and leave pos unchanged', exc=r.excname, got=r.value, pos=s._pos, via=via)
         v, newpos = exp
         if not r.ok:
-            return K.fail('read raised on a complete codeword', exc=r.excname, expected=v)
-        return K.check((r.value == v) and s._pos == newpos and same(raw(s), x), 'decoded value / consumed length differ from the standard',
-                       got=r.value, expected=v, pos=s._pos, expected_pos=newpos)
+            return K.fail('read raised on a complete codeword', exc=r.excname, expected=v, via=via)
+        exp_pos = pos if via == 'peeklist' else newpos
+        return K.check((r.value == v) and s._pos == exp_pos and same(raw(s), x), 'decoded value / consumed length differ from the standard',
+                       got=r.value, expected=v, pos=s._pos, expected_pos=exp_pos, via=via)
     return h
 
 
@@ -335,6 +343,10 @@ def conditions(tier):
         n = (12 if code in ('ue', 'se') else 8) if q else (20 if code in ('ue', 'se') else 12)
         for pos in ([0, 3, n] if q else list(range(0, n + 1))):
             add(f'C10.decode-total[{code},n={n},pos={pos}]', h_decode_total(code, n, pos), f'every {n}-bit string, start position {pos}', D_DEC, code=code, n=n, pos=pos)
+        for via in ('readlist', 'peeklist', 'readlist2'):
+            nn = 8 if q else 12
+            for pos in ([0, 2] if q else [0, 1, 2, 5]):
+                add(f'C10.decode-total-{via}[{code},n={nn},pos={pos}]', h_decode_total(code, nn, pos, via=via), f'every {nn}-bit string, start position {pos}, through {via}', D_DEC, code=code, n=nn, pos=pos)
         for m in ([0, 1, 5, 9] if q else list(range(0, 13))):
             add(f'C10.whole-value[{code},n={m}]', h_whole_value(code, m), f'every {m}-bit string interpreted through the whole-bitstring property', D_DEC, code=code, n=m)
     for code in ('ue', 'se'):
